@@ -76,11 +76,19 @@ def record(wbj, scratch, tag, rng, n):
             parser.set_excel_file_path(xlsx)
             tr.append({'ev': 'announce'})
         elif x < 0.26:
-            text = parser.get_translation()
+            try:
+                text = parser.get_translation()
+            except Exception as e:  # noqa - the workbook is translatable: a request that raises is an observation (version -3), judged by the specification
+                tr.append({'ev': 'text', 'ver': -3, 'raised': f'{type(e).__name__}: {e}'[:120]})
+                break
             tr.append({'ev': 'text', 'ver': version_of_text(text, pos)})
         elif x < 0.34:
-            parser.write_translation(py)
-            text = parser.get_translation()
+            try:
+                parser.write_translation(py)
+                text = parser.get_translation()
+            except Exception as e:  # noqa
+                tr.append({'ev': 'write', 'ver': -3, 'filever': -3, 'raised': f'{type(e).__name__}: {e}'[:120]})
+                break
             written = True
             tr.append({'ev': 'write', 'ver': version_of_text(text, pos), 'filever': version_of_file(py, pos) if open(py, encoding='utf-8').read() == text else -2})
         elif x < 0.46 and len(live) < 3 and (written or text is not None):
